@@ -31,7 +31,7 @@ func init() {
 		Run: run,
 		Floors: func(t string) map[string]int64 {
 			return map[string]int64{"cfg.entirely_inside": 100, "cfg.entirely_outside_bbox_overlap": 100, "cfg.entirely_outside_bbox_disjoint": 100, "cfg.crosses_hole": 100, "cfg.enters_several_times": 200, "cfg.two_vertex_line": 100,
-				"recv.MultiLineString": 300, "arg.*Bounds": 100, "arg.MultiPolygon": 300, "arg.Polygon": 300, "result.vertices_checked": 5000}
+				"recv.MultiLineString": 300, "arg.*Bounds": 100, "arg.MultiPolygon": 300, "arg.Polygon": 300, "result.vertices_checked": 5000, "line.long": 100}
 		},
 	})
 }
@@ -170,6 +170,9 @@ func run(c *core.Ctx, idx int) {
 		n := r.IntRange(2, 14)
 		if r.Chance(0.1) {
 			n = 2
+		} else if r.Chance(0.06) {
+			n = r.IntRange(60, 250) // long lines
+			c.Count("line.long")
 		}
 		shape := []string{"monotone", "walk", "spiral", "walk"}[r.Intn(4)]
 		lcx, lcy, lrad := ox, oy, scale*r.Range(0.5, 2)
